@@ -144,7 +144,7 @@ Qed.
 (* the remainders of x                                                 *)
 
 Section Step.
-  Variables (hole x : rect) (i : nat).
+  Variables (hole x : rect) (i : nat) (orig : rectset).
   Hypothesis Hhole : nonempty hole.
   Hypothesis Hx : nonempty x.
   Hypothesis Hxh : r_intersects x hole = true.
@@ -155,7 +155,7 @@ Section Step.
 
   Lemma pieces_ok : Forall piece_ok (r_subtract x hole) /\ pairwise sep (r_subtract x hole).
   Proof.
-    clear i. revert Hhole Hx Hxh. unfold piece_ok, clean.
+    clear i orig. revert Hhole Hx Hxh. unfold piece_ok, clean.
     destruct x as [tx lx hx wx], hole as [th lh hh wh].
     unfold nonempty, key_ltb, sep, r_subtract, r_contains, r_intersects, bottom, right, init_bounded;
       cbn [top left lines cols].
@@ -173,7 +173,8 @@ Section Step.
     (forall c, In c R -> Forall (sep c) s) /\
     (forall y, In y s -> clean hole y \/ sep y x) /\
     count_lt x s = i /\
-    (forall y, In y s -> key_ltb x y = true -> clean hole y).
+    (forall y, In y s -> key_ltb x y = true -> clean hole y) /\
+    (forall y, In y s -> clean hole y \/ In y orig).
 
   (* invariant during the re-add of remainder c0 *)
   Definition P (c0 : rect) (R : list rect) (s : rectset) (cur : rect) : Prop :=
@@ -187,7 +188,8 @@ Section Step.
     (bottom c0 < bottom cur -> forall y, In y s ->
        ~ (left y = left cur /\ right y = right cur /\ top y = bottom cur)) /\
     (count_lt x s + (if key_ltb x cur then 1 else 0))%nat = i /\
-    (forall y, In y s -> key_ltb x y = true -> clean hole y).
+    (forall y, In y s -> key_ltb x y = true -> clean hole y) /\
+    (forall y, In y s -> clean hole y \/ In y orig).
 
   Lemma P_basic c0 R s cur : P c0 R s cur -> Inv s /\ nonempty cur /\ Forall (sep cur) s.
   Proof. unfold P. tauto. Qed.
@@ -198,7 +200,7 @@ Section Step.
     (bottom y = top cur \/ top y = bottom cur) ->
     P c0 R (pre ++ post) (vstack y cur).
   Proof.
-    intros [Hinv [Hcur [Hiso [HR [Hcs [Hcl [Hshape [Hup [Hdn [Hcnt Hlt]]]]]]]]]] Hl Hr Hv.
+    intros [Hinv [Hcur [Hiso [HR [Hcs [Hcl [Hshape [Hup [Hdn [Hcnt [Hlt Horig]]]]]]]]]]] Hl Hr Hv.
     destruct Hc0 as [Hc0n [Hc1 [Hc2 [Hc3 [Hc4 [Hc0cl Hc0k]]]]]].
     assert (Hyin : In y (pre ++ y :: post)) by (apply in_or_app; right; left; reflexivity).
     assert (Hy : nonempty y) by (eapply Inv_In_nonempty; eauto).
@@ -261,12 +263,13 @@ Section Step.
         destruct ((Z.min (top y) (top cur) <? top x) || (Z.min (top y) (top cur) =? top x) && (left cur <? left x)) eqn:K3;
         lia. }
       lia. }
-    intros z Hz. apply Hlt, Hsub, Hz.
+    split; [intros z Hz; apply Hlt, Hsub, Hz|].
+    intros z Hz. apply Horig, Hsub, Hz.
   Qed.
 
   Lemma P_insert c0 R s cur : P c0 R s cur -> Forall (sepx cur) s -> B R (rs_insert s cur).
   Proof.
-    intros [Hinv [Hcur [Hiso [HR [Hcs [Hcl [Hshape [Hup [Hdn [Hcnt Hlt]]]]]]]]]] Hsx.
+    intros [Hinv [Hcur [Hiso [HR [Hcs [Hcl [Hshape [Hup [Hdn [Hcnt [Hlt Horig]]]]]]]]]]] Hsx.
     unfold B. split.
     { destruct Hinv as [Hne [Hsep Hso]].
       destruct (rs_insert_split s cur Hso) as [pre [post [E1 [E2 [H1 H2]]]]].
@@ -278,13 +281,15 @@ Section Step.
     { intros z Hz. apply in_rs_insert in Hz. destruct Hz as [->|Hz]; auto. }
     split.
     { rewrite count_lt_insert; [exact Hcnt|]. destruct Hinv as [_ [_ Hso]]. exact Hso. }
-    intros z Hz Hk. apply in_rs_insert in Hz. destruct Hz as [->|Hz]; auto.
+    split.
+    { intros z Hz Hk. apply in_rs_insert in Hz. destruct Hz as [->|Hz]; auto. }
+    intros z Hz. apply in_rs_insert in Hz. destruct Hz as [->|Hz]; auto.
   Qed.
 
   Lemma P_init c0 R s : piece_ok c0 -> Forall piece_ok R -> Forall (sep c0) R ->
     B (c0 :: R) s -> P c0 R s c0.
   Proof.
-    intros Hc0 HRok Hsep [Hinv [HR [Hcs [Hcnt Hlt]]]].
+    intros Hc0 HRok Hsep [Hinv [HR [Hcs [Hcnt [Hlt Horig]]]]].
     destruct Hc0 as [Hc0n [Hc1 [Hc2 [Hc3 [Hc4 [Hc0cl Hc0k]]]]]].
     rewrite Forall_forall in HRok, Hsep.
     unfold P. split; [exact Hinv|]. split; [exact Hc0n|].
@@ -293,7 +298,7 @@ Section Step.
     { intros c Hc. split; [apply (HRok c Hc)|]. split; [apply sep_sym, Hsep, Hc|apply HR; right; exact Hc]. }
     split; [exact Hcs|]. split; [exact Hc0cl|].
     split; [lia|]. split; [lia|]. split; [lia|].
-    split; [rewrite Hc0k; lia|exact Hlt].
+    split; [rewrite Hc0k; lia|]. split; [exact Hlt|exact Horig].
   Qed.
 
   Lemma add_pieces fuel : forall ps s s',
@@ -326,7 +331,8 @@ Lemma subtract_step hole fuel pre x post s1 :
   nonempty hole -> Inv (pre ++ x :: post) -> Forall (clean hole) pre ->
   r_intersects x hole = true ->
   rs_add_list fuel false (pre ++ post) (r_subtract x hole) = Some s1 ->
-  Forall (clean hole) (firstn (length pre) s1).
+  Forall (clean hole) (firstn (length pre) s1) /\
+  (forall y, In y s1 -> clean hole y \/ In y (pre ++ post)).
 Proof.
   intros Hhole Hinv Hpre Hxh Hadd.
   assert (Hxin : In x (pre ++ x :: post)) by (apply in_or_app; right; left; reflexivity).
@@ -336,7 +342,7 @@ Proof.
   destruct Hinv as [Hn [Hsep Hso]].
   pose proof (pairwise_mid _ _ _ _ Hsep) as [Hsep1 Hsep2].
   pose proof (pairwise_mid _ _ _ _ Hso) as [Hso1 Hso2].
-  assert (HB : B hole x (length pre) (r_subtract x hole) (pre ++ post)).
+  assert (HB : B hole x (length pre) (pre ++ post) (r_subtract x hole) (pre ++ post)).
   { unfold B. split; [apply (Inv_remove pre x post); repeat split; assumption|].
     split.
     { intros c Hc. rewrite Forall_forall in Hok. destruct (Hok c Hc) as [_ [H1 [H2 [H3 [H4 _]]]]].
@@ -356,10 +362,14 @@ Proof.
     { apply Forall_forall. intros y Hy. apply key_after, Hso2, Hy. }
     split.
     { rewrite count_lt_app, (count_lt_all_true _ _ Hpre_lt), (count_lt_all_false _ _ Hpost_ge). lia. }
-    intros y Hy Hk. apply in_app_or in Hy. destruct Hy as [Hy|Hy].
-    - rewrite Forall_forall in Hpre. apply Hpre, Hy.
-    - rewrite Forall_forall in Hpost_ge. rewrite (Hpost_ge y Hy) in Hk. discriminate. }
-  pose proof (add_pieces hole x (length pre) Hhole Hxh fuel _ _ _ Hok Hpw HB Hadd) as [Hinv1 [_ [_ [Hcnt Hlt]]]].
+    split.
+    { intros y Hy Hk. apply in_app_or in Hy. destruct Hy as [Hy|Hy].
+      - rewrite Forall_forall in Hpre. apply Hpre, Hy.
+      - rewrite Forall_forall in Hpost_ge. rewrite (Hpost_ge y Hy) in Hk. discriminate. }
+    intros y Hy. right. exact Hy. }
+  pose proof (add_pieces hole x (length pre) (pre ++ post) Hhole Hxh fuel _ _ _ Hok Hpw HB Hadd)
+    as [Hinv1 [_ [_ [Hcnt [Hlt Horig]]]]].
+  split; [|exact Horig].
   destruct Hinv1 as [_ [_ Hso1']].
   rewrite <- Hcnt, (firstn_count_lt x s1 Hso1').
   apply Forall_forall. intros y Hy. apply filter_In in Hy. destruct Hy as [Hy Hk]. apply Hlt; assumption.
@@ -399,7 +409,7 @@ Proof.
     intros Hloop.
     destruct (pieces_cover hole x Hhole Hx Eint) as [Hpne Hpcov].
     destruct (rs_add_list_ok fuel _ _ _ (Inv_remove _ _ _ Hinv) Hpne Eadd) as [Hinv1 Hcov1].
-    pose proof (subtract_step hole fuel pre x post s1 Hhole Hinv Hpre Eint Eadd) as Hcl1.
+    pose proof (subtract_step hole fuel pre x post s1 Hhole Hinv Hpre Eint Eadd) as [Hcl1 _].
     destruct (IH s1 (length pre) s' Hinv1 Hcl1 Hloop) as [Hinv' [Hcl' [Hsub Hsup]]].
     split; [exact Hinv'|]. split; [exact Hcl'|]. split.
     + intros p Hp. apply Hsub in Hp. apply Hcov1 in Hp. rewrite covered_remove_mid.
